@@ -148,7 +148,7 @@ def ensure_mir(config, repo=None):
             shutil.rmtree(d)
         os.makedirs(d)
         nonce = uuid.uuid4().hex
-        target = os.path.join(CACHE, "target-" + config + ("" if repo == "/repo" else "-alt"))
+        target = os.path.join(VERIF, ".cache", "target-" + config + ("" if repo == "/repo" else "-" + os.environ.get("VERIF_SLOT", "alt")))
         fp = os.path.join(target, "debug", ".fingerprint")
         if os.path.isdir(fp):
             for e in os.listdir(fp):
